@@ -40,6 +40,7 @@ def PointS(): return Struct(M.Point, {"x": Int(), "y": Int()})
 def SPointS(): return Struct(M.SPoint, {"x": Int(), "name": Str()})
 def FPointS(): return Struct(M.FPoint, {"x": Int(), "flag": Bool()})
 def KPointS(): return Struct(M.KPoint, {"x": Int(), "y": Str()})
+def NFHolderS(): return Struct(M.NFHolder, {"when": Opt(DateS(), "none_first"), "who": Opt(FPointS(), "Union_none_first")})
 def LineS(): return Struct(M.Line, {"a": PointS(), "b": PointS(), "label": Str()})
 def BagS(): return Struct(M.Bag, {"items": ListOf(Int()), "names": DictOf(Str(), Int()), "maybe": Opt(Int())})
 def MixedS(): return Struct(M.Mixed, {"p": PointS(), "tags": ListOf(Str()), "pair": FixedTuple(Int(), Str()),
@@ -213,6 +214,9 @@ def depth2():
         DictOf(EnumS(M.Mood), Int()), FixedTuple(DateS(), TimeDeltaS(), Int()), ListOf(TimeDeltaS()),
         UnionS(Int(-2, 2), Str(picks=["", "a", "1"])), UnionS(PointS(), Int(-2, 2)), ListOf(UnionS(Int(-2, 2), Str(picks=["", "a", "1"]))),
         DictOf(Str(picks=["a", "b"]), UnionS(Int(-2, 2), PointS())),
+        # None declared first (X == Optional[X] as cache keys: the inner types below occur in no other optional)
+        Opt(DateS(), "none_first"), Opt(SPointS(), "none_first"), Opt(DecimalS(), "Union_none_first"),
+        ListOf(Opt(EnumS(M.Level), "none_first")), NFHolderS(),
     ]
 
 
@@ -235,7 +239,7 @@ CORE = {
     "Tree", "Chain", "DNode", "Ping", "Dept", "NTree", "TDNode", "Item", "Cyc", "Ind",
     "list[list[int]]", "dict[str,list[int]]", "list[Point]", "dict[str,Point]", "list[Optional[int]]",
     "tuple[Point,list[int]]", "Optional[Point]", "list[date]", "list[TD]", "list[tuple[int,str]]",
-    "Union[int,str]", "Union[Point,int]", "list[Union[int,str]]", "PlainNT",
+    "Union[int,str]", "Union[Point,int]", "list[Union[int,str]]", "PlainNT", "None|date", "None|SPoint", "NFHolder",
 }
 
 
